@@ -562,10 +562,127 @@ pub fn tag_reads(case_text: &str, out: &mut dyn Write) {
     }
 }
 
+/// growth profile (engine_compact, engine_reopen): histories whose property store outgrows one 8 KiB
+/// B-tree page (≈ 390 short entries), so that the root of the real property tree splits during a
+/// compaction — in one shot, over several compactions, through relationship properties, or through
+/// hundreds of overwrite-then-compact rounds of one property — with a full read-back (every node and
+/// relationship, single-key and whole-map) before / after each compaction and after reopen / close.
+fn gen_growth(rng: &mut Rng, out: &mut dyn Write, mode: Mode, idx: usize, thorough: bool) {
+    let after = |rng: &mut Rng, out: &mut dyn Write| {
+        if mode == Mode::Reopen {
+            writeln!(out, "extq 1000").unwrap();
+            writeln!(out, "{}", if rng.chance(1, 2) { "close" } else { "reopen" }).unwrap();
+            writeln!(out, "dump").unwrap();
+            writeln!(out, "extq 1000").unwrap();
+        }
+    };
+    writeln!(out, "open").unwrap();
+    let variants = if thorough { 4 } else { 3 };
+    match idx % variants {
+        0 => {
+            // one shot: ≥ 450 distinct node properties sunk by one compaction, then overwrites + a second key
+            // (fewer than 512 nodes in all: the node table must not outgrow its first page once other
+            // structures own the next one — known finding C18-i2e-growth, not this stream's business)
+            let n = 450 + rng.below(50) as usize;
+            writeln!(out, "begin").unwrap();
+            for i in 0..n {
+                writeln!(out, "node {} {}", 1000 + i, LABELS[i % LABELS.len()]).unwrap();
+            }
+            for i in 0..n {
+                writeln!(out, "nprop {} p0 i{}", i, i).unwrap();
+            }
+            writeln!(out, "commit\ndump\ncompact\ndump").unwrap();
+            after(rng, out);
+            writeln!(out, "begin").unwrap();
+            for i in (0..n).step_by(3) {
+                writeln!(out, "nprop {} p1 s61", i).unwrap();
+            }
+            for i in (0..n).step_by(7) {
+                writeln!(out, "nprop {} p0 i-{}", i, i + 1).unwrap();
+            }
+            writeln!(out, "commit\ndump\ncompact\ndump").unwrap();
+            after(rng, out);
+        }
+        1 => {
+            // several compactions: the root splits at the second or third one
+            let mut next = 0usize;
+            for b in 0..4 {
+                let m = 100 + rng.below(25) as usize; // < 512 nodes in all, see above
+                writeln!(out, "begin").unwrap();
+                for i in next..next + m {
+                    writeln!(out, "node {} -", 1000 + i).unwrap();
+                }
+                for i in next..next + m {
+                    writeln!(out, "nprop {} p0 i{}", i, i).unwrap();
+                    writeln!(out, "nprop {} p2 b{}", i, i % 2).unwrap();
+                }
+                next += m;
+                writeln!(out, "commit\ncompact\ndump").unwrap();
+                if b % 2 == 1 {
+                    after(rng, out);
+                }
+            }
+            after(rng, out);
+        }
+        2 => {
+            // relationship properties: ≥ 450 relationships with one property each
+            let m = 40usize;
+            writeln!(out, "begin").unwrap();
+            for i in 0..m {
+                writeln!(out, "node {} A", 1000 + i).unwrap();
+            }
+            let per = 12 + rng.below(2) as usize;
+            for s in 0..m {
+                for d in 0..per {
+                    let t = (s + d + 1) % m;
+                    writeln!(out, "edge {} R {}", s, t).unwrap();
+                    writeln!(out, "eprop {} R {} p0 i{}", s, t, s * 100 + d).unwrap();
+                }
+            }
+            writeln!(out, "commit\ndump\ncompact\ndump").unwrap();
+            after(rng, out);
+            writeln!(out, "begin").unwrap();
+            for s in (0..m).step_by(2) {
+                let t = (s + 1) % m;
+                writeln!(out, "eprop {} R {} p1 s62", s, t).unwrap();
+                writeln!(out, "eprop {} R {} p0 i-1", s, t).unwrap();
+            }
+            writeln!(out, "commit\ncompact\ndump").unwrap();
+            after(rng, out);
+        }
+        _ => {
+            // overwrite rounds: one property, ≥ 450 rounds of overwrite + compact (one duplicate entry each)
+            let rounds = 450 + rng.below(30) as usize;
+            writeln!(out, "begin\nnode 1000 A\nnode 1001 A\nedge 0 R 1\ncommit").unwrap();
+            for r in 0..rounds {
+                writeln!(out, "begin\nnprop 0 p0 i{}", r).unwrap();
+                if r % 3 == 0 {
+                    writeln!(out, "eprop 0 R 1 p1 i{}", r).unwrap();
+                }
+                writeln!(out, "commit\ncompact").unwrap();
+                if r % 64 == 63 {
+                    writeln!(out, "dump").unwrap();
+                }
+            }
+            writeln!(out, "dump").unwrap();
+            after(rng, out);
+        }
+    }
+}
+
 fn generate(rng: &mut Rng, n: usize, tier: &str, sink: &mut dyn Write, mode: Mode) {
-    let max_tx = if tier == "thorough" { 12 } else { 6 };
+    let thorough = tier == "thorough";
+    let max_tx = if thorough { 12 } else { 6 };
+    // growth cases: 3 per quick run (one per variant), 12 per thorough run (incl. the overwrite rounds)
+    let per = if thorough { n / 12 } else { n / 3 };
     for case in 0..n {
         writeln!(sink, "#case {}", case).unwrap();
+        if (mode == Mode::Compact || mode == Mode::Reopen) && n >= 30 && case % per == 1 {
+            let mut buf: Vec<u8> = Vec::new();
+            gen_growth(rng, &mut buf, mode, case / per, thorough);
+            tag_reads(std::str::from_utf8(&buf).unwrap(), sink);
+            continue;
+        }
         let mut buf: Vec<u8> = Vec::new();
         let out: &mut dyn Write = &mut buf;
         writeln!(out, "open").unwrap();
